@@ -353,128 +353,128 @@ Fixpoint trim_loop (fuel : nat) (d : list N) (start j endp : Z) : res Z :=
   end.
 Definition trim_end (d : list N) (start i : Z) : res Z := trim_loop (S (length d)) d start (i - 1) i.
 
-(* avc.ExtractNalusFromByteStream *)
-Fixpoint enb_loop (fuel : nat) (d : list N) (n i cur : Z) (acc : list (list N)) : res (Z * list (list N)) :=
+(* The four byte-stream helpers share one loop skeleton, textually identical in the Go source:
+     for i := 0; i < n-3; i++ { if data[i] == 0 && data[i+1] == 0 && data[i+2] == 1 { <body> } }
+   `body i st` is the transcription of <body>: inl st' = fall through to the next iteration,
+   inr r = `break` / `return` inside the loop. *)
+Fixpoint bs_loop {St R : Type} (body : Z -> St -> res (St + R)) (fuel : nat) (d : list N) (n i : Z) (st : St)
+  : res (St + R) :=
   match fuel with
   | O => OutOfFuel
   | S f =>
       if i <? n - 3 then
         do m <- sc_at d i;
         if m then
-          do acc' <- (if cur >? 0 then
-                        do e <- trim_end d cur i;
-                        do sl <- slice d cur e;
-                        Ok (sl :: acc)
-                      else Ok acc);
-          enb_loop f d n (i + 1) (i + 3) acc'
-        else enb_loop f d n (i + 1) cur acc
-      else Ok (cur, acc)
+          do r <- body i st;
+          match r with
+          | inl st' => bs_loop body f d n (i + 1) st'
+          | inr x => Ok (inr x)
+          end
+        else bs_loop body f d n (i + 1) st
+      else Ok (inl st)
+  end.
+
+(* avc.ExtractNalusFromByteStream; state = (currNaluStart, nalus reversed) *)
+Definition enb_body (d : list N) (i : Z) (st : Z * list (list N)) : res ((Z * list (list N)) + unit) :=
+  let '(cur, acc) := st in
+  do acc' <- (if cur >? 0 then
+                do e <- trim_end d cur i;
+                do sl <- slice d cur e;
+                Ok (sl :: acc)
+              else Ok acc);
+  Ok (inl (i + 3, acc')).
+Definition enb_finish (d : list N) (r : (Z * list (list N)) + unit) : res (list (list N)) :=
+  match r with
+  | inl (cur, acc) => if cur <? 0 then Ok [] else do sl <- slice d cur (Zlen d); Ok (rev (sl :: acc))
+  | inr _ => Ok []    (* the body never breaks *)
   end.
 Definition extract_nalus_from_byte_stream (d : list N) : res (list (list N)) :=
-  let n := Zlen d in
-  do r <- enb_loop (S (length d)) d n 0 (-1) [];
-  if fst r <? 0 then Ok []
-  else do sl <- slice d (fst r) n; Ok (rev (sl :: snd r)).
+  do r <- bs_loop (enb_body d) (S (length d)) d (Zlen d) 0 (-1, []);
+  enb_finish d r.
 
 (* {avc,hevc}.ExtractNalusOfTypeFromByteStream (after `fix: ... stops at a one-byte video NAL unit too`:
-   `if currNaluStart < n`); vlim = 6 (avc) / 32 (hevc) *)
-Fixpoint enot_loop (ty : N -> N) (vlim want : N) (stop : bool) (fuel : nat) (d : list N) (n i cur : Z)
-         (acc : list (list N)) : res (bool * Z * list (list N)) (* returned-inside-loop?, cur, acc *) :=
-  match fuel with
-  | O => OutOfFuel
-  | S f =>
-      if i <? n - 3 then
-        do m <- sc_at d i;
-        if m then
-          do acc' <- (if cur >? 0 then
-                        do e <- trim_end d cur i;
-                        do h <- getb d cur;
-                        if N.eqb (ty h) want then do sl <- slice d cur e; Ok (sl :: acc) else Ok acc
-                      else Ok acc);
-          let cur' := i + 3 in
-          do ret <- (if cur' <? n then do h <- getb d cur'; Ok (stop && (ty h <? vlim)%N) else Ok false);
-          if ret then Ok (true, cur', acc')
-          else enot_loop ty vlim want stop f d n (i + 1) cur' acc'
-        else enot_loop ty vlim want stop f d n (i + 1) cur acc
-      else Ok (false, cur, acc)
+   `if currNaluStart < n`); vlim = 6 (avc) / 32 (hevc); inr = `return nalus` inside the loop *)
+Definition enot_body (ty : N -> N) (vlim want : N) (stop : bool) (d : list N) (i : Z)
+           (st : Z * list (list N)) : res ((Z * list (list N)) + list (list N)) :=
+  let '(cur, acc) := st in
+  do acc' <- (if cur >? 0 then
+                do e <- trim_end d cur i;
+                do h <- getb d cur;
+                if N.eqb (ty h) want then do sl <- slice d cur e; Ok (sl :: acc) else Ok acc
+              else Ok acc);
+  let cur' := i + 3 in
+  do ret <- (if cur' <? Zlen d then do h <- getb d cur'; Ok (stop && (ty h <? vlim)%N) else Ok false);
+  if ret then Ok (inr acc') else Ok (inl (cur', acc')).
+Definition enot_finish (ty : N -> N) (want : N) (d : list N) (r : (Z * list (list N)) + list (list N))
+  : res (list (list N)) :=
+  match r with
+  | inr acc => Ok (rev acc)
+  | inl (cur, acc) =>
+      if cur <? 0 then Ok []
+      else
+        do h <- getb d cur;
+        if N.eqb (ty h) want then do sl <- slice d cur (Zlen d); Ok (rev (sl :: acc)) else Ok (rev acc)
   end.
 Definition extract_nalus_of_type (ty : N -> N) (vlim want : N) (stop : bool) (d : list N) : res (list (list N)) :=
-  let n := Zlen d in
-  do r <- enot_loop ty vlim want stop (S (length d)) d n 0 (-1) [];
-  let '(ret, cur, acc) := r in
-  if ret then Ok (rev acc)
-  else if cur <? 0 then Ok []
-  else
-    do h <- getb d cur;
-    if N.eqb (ty h) want then do sl <- slice d cur n; Ok (rev (sl :: acc)) else Ok (rev acc).
+  do r <- bs_loop (enot_body ty vlim want stop d) (S (length d)) d (Zlen d) 0 (-1, []);
+  enot_finish ty want d r.
 Definition avc_extract_nalus_of_type := extract_nalus_of_type avc_type 6%N.
 Definition hevc_extract_nalus_of_type := extract_nalus_of_type hevc_type 32%N.
 
 (* {avc,hevc}.GetParameterSetsFromByteStream (after `fix: GetParameterSetsFromByteStream returns a
-   parameter set that ends the byte stream`): `for i := 0; i < n-3; i++`, break with videoFound on a
-   video unit, then the unit after the last start code unless videoFound *)
-Fixpoint gpsb_loop (ty cls : N -> N) (vlim : N) (fuel : nat) (d : list N) (n i cur : Z) (acc : ps3)
-  : res (bool * Z * ps3) (* videoFound, currNaluStart, sets in reverse *) :=
-  match fuel with
-  | O => OutOfFuel
-  | S f =>
-      if i <? n - 3 then
-        do m <- sc_at d i;
-        if m then
-          do acc' <- (if cur >? 0 then
-                        do e <- trim_end d cur i;
-                        do h <- getb d cur;
-                        let c := cls (ty h) in
-                        if (c <=? 2)%N then do sl <- slice d cur e; Ok (ps_add c sl acc) else Ok acc
-                      else Ok acc);
-          let cur' := i + 3 in
-          do h <- getb d cur';
-          if (ty h <? vlim)%N then Ok (true, cur', acc')
-          else gpsb_loop ty cls vlim f d n (i + 1) cur' acc'
-        else gpsb_loop ty cls vlim f d n (i + 1) cur acc
-      else Ok (false, cur, acc)
-  end.
-Definition get_parameter_sets_from_byte_stream (ty cls : N -> N) (vlim : N) (d : list N) : res ps3 :=
-  let n := Zlen d in
-  do r <- gpsb_loop ty cls vlim (S (length d)) d n 0 (-1) ([], [], []);
-  let '(vf, cur, acc) := r in
-  do acc' <- (if (cur >? 0) && negb vf then
+   parameter set that ends the byte stream`): loop to n-3, break with videoFound (inr) on a video unit,
+   then the unit after the last start code unless videoFound *)
+Definition gpsb_body (ty cls : N -> N) (vlim : N) (d : list N) (i : Z) (st : Z * ps3) : res ((Z * ps3) + ps3) :=
+  let '(cur, acc) := st in
+  do acc' <- (if cur >? 0 then
+                do e <- trim_end d cur i;
                 do h <- getb d cur;
                 let c := cls (ty h) in
-                if (c <=? 2)%N then do sl <- slice d cur n; Ok (ps_add c sl acc) else Ok acc
+                if (c <=? 2)%N then do sl <- slice d cur e; Ok (ps_add c sl acc) else Ok acc
               else Ok acc);
-  Ok (ps_rev acc').
+  let cur' := i + 3 in
+  do h <- getb d cur';
+  if (ty h <? vlim)%N then Ok (inr acc') else Ok (inl (cur', acc')).
+Definition gpsb_finish (ty cls : N -> N) (d : list N) (r : (Z * ps3) + ps3) : res ps3 :=
+  match r with
+  | inr acc => Ok (ps_rev acc)
+  | inl (cur, acc) =>
+      do acc' <- (if cur >? 0 then
+                    do h <- getb d cur;
+                    let c := cls (ty h) in
+                    if (c <=? 2)%N then do sl <- slice d cur (Zlen d); Ok (ps_add c sl acc) else Ok acc
+                  else Ok acc);
+      Ok (ps_rev acc')
+  end.
+Definition get_parameter_sets_from_byte_stream (ty cls : N -> N) (vlim : N) (d : list N) : res ps3 :=
+  do r <- bs_loop (gpsb_body ty cls vlim d) (S (length d)) d (Zlen d) 0 (-1, ([], [], []));
+  gpsb_finish ty cls d r.
 Definition avc_get_parameter_sets_from_byte_stream :=
   get_parameter_sets_from_byte_stream avc_type avc_ps_class 6%N.
 Definition hevc_get_parameter_sets_from_byte_stream :=
   get_parameter_sets_from_byte_stream hevc_type hevc_ps_class 32%N.
 
-(* avc.GetFirstAVCVideoNALUFromByteStream; nil is the empty list *)
-Fixpoint gfv_loop (fuel : nat) (d : list N) (n i cur : Z) : res (Z * Z * Z) (* cur, naluStart, naluEnd *) :=
-  match fuel with
-  | O => OutOfFuel
-  | S f =>
-      if i <? n - 3 then
-        do m <- sc_at d i;
-        if m then
-          do r <- (if cur >? 0 then
-                     do e <- trim_end d cur i;
-                     do h <- getb d cur;
-                     if avc_is_video (avc_type h) then Ok (Some (cur, e)) else Ok None
-                   else Ok None);
-          match r with
-          | Some (a, b) => Ok (cur, a, b)
-          | None => gfv_loop f d n (i + 1) (i + 3)
-          end
-        else gfv_loop f d n (i + 1) cur
-      else Ok (cur, 0, 0)
+(* avc.GetFirstAVCVideoNALUFromByteStream; state = currNaluStart, inr (naluStart, naluEnd) = break;
+   nil is the empty list *)
+Definition gfv_body (d : list N) (i : Z) (cur : Z) : res (Z + (Z * Z)) :=
+  do r <- (if cur >? 0 then
+             do e <- trim_end d cur i;
+             do h <- getb d cur;
+             if avc_is_video (avc_type h) then Ok (Some (cur, e)) else Ok None
+           else Ok None);
+  match r with
+  | Some ab => Ok (inr ab)
+  | None => Ok (inl (i + 3))
+  end.
+Definition gfv_finish (d : list N) (r : Z + (Z * Z)) : res (list N) :=
+  match r with
+  | inr (a, b) => if a =? 0 then Ok [] else slice d a b
+  | inl cur =>
+      if cur >? 0 then
+        do h <- getb d cur;
+        if avc_is_video (avc_type h) then slice d cur (Zlen d) else Ok []
+      else Ok []
   end.
 Definition avc_get_first_video_nalu (d : list N) : res (list N) :=
-  let n := Zlen d in
-  do r <- gfv_loop (S (length d)) d n 0 (-1);
-  let '(cur, a, b) := r in
-  do ab <- (if (cur >? 0) && (a =? 0) then
-              do h <- getb d cur;
-              if avc_is_video (avc_type h) then Ok (cur, n) else Ok (a, b)
-            else Ok (a, b));
-  if fst ab =? 0 then Ok [] else slice d (fst ab) (snd ab).
+  do r <- bs_loop (gfv_body d) (S (length d)) d (Zlen d) 0 (-1);
+  gfv_finish d r.
